@@ -228,6 +228,35 @@ func cmdCheck(args []string) {
 			}
 		}
 	}
+	// induction lemmas of this property, plus every lemma (and the lemmas it
+	// builds on) that a function of this check uses or instantiates
+	usedLemmas = map[string]bool{}
+	for _, j := range jobs {
+		for _, u := range j.fc.UseLemmas {
+			usedLemmas[u] = true
+		}
+		for _, inst := range j.fc.Instantiate {
+			if i := strings.Index(inst, "("); i > 0 {
+				usedLemmas[strings.TrimSpace(inst[:i])] = true
+			}
+		}
+	}
+	for changed := true; changed; {
+		changed = false
+		for _, ind := range l.cs.Inducts {
+			if usedLemmas[ind.Label] {
+				for _, u := range ind.Using {
+					if i := strings.Index(u, "("); i > 0 {
+						u = strings.TrimSpace(u[:i])
+					}
+					if !usedLemmas[u] {
+						usedLemmas[u] = true
+						changed = true
+					}
+				}
+			}
+		}
+	}
 	if irep := genInducts(l.prog, l.cs, id); len(irep.Obls) > 0 || irep.Err != "" {
 		if irep.Err != "" {
 			genErrs = append(genErrs, "lemma: "+irep.Err)
